@@ -229,6 +229,58 @@ func (s *Store) Apply(au consensus.ApplyUpdate, hasAtt bool) error {
 		}
 	}
 	s.CI = append(s.CI, au.ChainIndexElement().Copy())
+	// the other legal client order: insert the block's new elements first, then refresh EVERYTHING with the update -
+	// elements the block itself created are already up to date and must come out unchanged
+	sameProof := func(a, b types.StateElement) bool {
+		if a.LeafIndex != b.LeafIndex || len(a.MerkleProof) != len(b.MerkleProof) {
+			return false
+		}
+		for i := range a.MerkleProof {
+			if a.MerkleProof[i] != b.MerkleProof[i] {
+				return false
+			}
+		}
+		return true
+	}
+	refreshed := func(kind string, se types.StateElement) error {
+		c := se.Copy()
+		au.UpdateElementProof(&c)
+		if !sameProof(c, se) {
+			return fmt.Errorf("%s element created by the block (leaf %d, %d-hash proof) is changed by refreshing it with the update that created it (leaf %d, %d hashes)", kind, se.LeafIndex, len(se.MerkleProof), c.LeafIndex, len(c.MerkleProof))
+		}
+		return nil
+	}
+	for _, d := range au.SiacoinElementDiffs() {
+		if d.Created && !d.Spent {
+			if err := refreshed("siacoin", d.SiacoinElement.StateElement); err != nil {
+				return err
+			}
+		}
+	}
+	for _, d := range au.SiafundElementDiffs() {
+		if d.Created && !d.Spent {
+			if err := refreshed("siafund", d.SiafundElement.StateElement); err != nil {
+				return err
+			}
+		}
+	}
+	for _, d := range au.FileContractElementDiffs() {
+		if d.Created && !d.Resolved {
+			if err := refreshed("file contract", d.FileContractElement.StateElement); err != nil {
+				return err
+			}
+		}
+	}
+	for _, d := range au.V2FileContractElementDiffs() {
+		if d.Created && d.Resolution == nil {
+			if err := refreshed("v2 file contract", d.V2FileContractElement.StateElement); err != nil {
+				return err
+			}
+		}
+	}
+	if err := refreshed("chain index", au.ChainIndexElement().StateElement); err != nil {
+		return err
+	}
 	if hasAtt {
 		aes, err := attestationElements(au)
 		if err != nil {
